@@ -22,7 +22,14 @@ pub fn scenario(prop: &str) -> Scenario {
         fw_fracs: true,
     };
     match prop {
-        "C05" | "C01" => {}
+        "C05" => {}
+        "C01" => {
+            s.mp.big_counters = true;
+            s.mp.max_states = 5;
+            s.hp.max_events = 8;
+            s.hp.max_calls = 10;
+            s.max_machines = 4;
+        }
         _ => {}
     }
     s.min_machines = s.min_machines.min(s.max_machines);
@@ -39,6 +46,9 @@ pub fn gen_case(prop: &str, r: &mut SplitMix64) -> FwCase {
     };
     if !script.is_empty() {
         sc.mp.families = false;
+    }
+    if prop == "C01" && script.is_empty() && r.chance(1, 3) {
+        sc.mp.dist = DistMode::Heavy;
     }
     let n = r.range(sc.min_machines, sc.max_machines) as usize;
     let machines = (0..n).map(|_| gen_machine(r, &sc.mp)).collect::<Vec<_>>();
@@ -60,7 +70,33 @@ pub fn gen_case(prop: &str, r: &mut SplitMix64) -> FwCase {
 }
 
 /// returns a description of the violation, if the run violates the property
-pub fn monitor(_prop: &str, _c: &FwCase, _run: &FwRun) -> Option<String> {
+pub fn monitor(prop: &str, c: &FwCase, run: &FwRun) -> Option<String> {
+    match prop {
+        "C01" => mon_c01(c, run),
+        _ => None,
+    }
+}
+
+/// C01: no panic, and the per-call step count is within
+/// (events+1)*(machines+1) + 2*machines
+fn mon_c01(c: &FwCase, run: &FwRun) -> Option<String> {
+    if let Some(p) = &run.panic {
+        return Some(format!("panic after {} completed call(s): {}", run.calls.len(), p));
+    }
+    if let Some(e) = &run.new_err {
+        return Some(format!("Framework::new rejected validated machines: {}", e));
+    }
+    let n = c.machines.len() as u64;
+    for (i, rec) in run.calls.iter().enumerate() {
+        let e = c.calls[i].1.len() as u64;
+        let bound = (e + 1) * (n + 1) + 2 * n;
+        if rec.steps > bound {
+            return Some(format!(
+                "call {}: {} machine steps for {} events and {} machines exceeds the bound {}",
+                i, rec.steps, e, n, bound
+            ));
+        }
+    }
     None
 }
 
